@@ -44,9 +44,12 @@ func runC01(c *Ctx) {
 }
 
 // ruleColumnShape: L(EncodeColumn) ⊆ L(DecodeColumn), same for state codecs.
-func ruleColumnShape(c *Ctx, p *core.Program) {
-	rule := "C01.shape"
-	c.R.Rule(rule, "E2 containment per column type (generic origins included): every atom sequence EncodeColumn can emit (wire primitives, raw appends, nested codecs keyed by the access path of the inner column, e.g. recv.Offsets / recv.Data / recv.keys16) is consumed by a success path of DecodeColumn; likewise EncodeState ⊆ DecodeState; the block encoder is contained in DecodeRawBlock composed with Results.DecodeResult and with Results.decodeAuto at every revision sample")
+func ruleColumnShape(c *Ctx, p *core.Program) { ruleColumnShapeAs(c, p, "C01.shape") }
+
+func ruleColumnShapeAs(c *Ctx, p *core.Program, rule string) {
+	if rule == "C01.shape" {
+		c.R.Rule(rule, "E2 containment per column type (generic origins included): every atom sequence EncodeColumn can emit (wire primitives, raw appends, nested codecs keyed by the access path of the inner column, e.g. recv.Offsets / recv.Data / recv.keys16) is consumed by a success path of DecodeColumn; likewise EncodeState ⊆ DecodeState; the block encoder is contained in DecodeRawBlock composed with Results.DecodeResult and with Results.decodeAuto at every revision sample")
+	}
 	cfg := p.Cfg.Name
 	cls := wireClassifier(p, true)
 	n := 0
